@@ -255,8 +255,13 @@ impl Accept for UnixListener {
     type Error = io::Error;
 
     fn poll_accept(self: Pin<&mut Self>, cx: &mut Context<'_>) -> Poll<io::Result<Self::Conn>> {
+        // A peer address which can't be represented (e.g. a path which is not UTF-8) is a property
+        // of that one client: treat it as unnamed rather than failing the accept (and the server).
         UnixListener::poll_accept(self.get_mut(), cx).map(|res| {
-            res.and_then(|(stream, remote)| Ok(UnixStream::new(stream, Some(remote.try_into()?))))
+            res.map(|(stream, remote)| {
+                let remote = remote.try_into().unwrap_or_else(|_| UnixAddr::unnamed());
+                UnixStream::new(stream, Some(remote))
+            })
         })
     }
 }
